@@ -13,6 +13,7 @@
 -/
 import TypedpyModel.Lemmas.Sched
 import TypedpyModel.Generated.SharedWrites
+import TypedpyModel.Generated.FieldAliases
 import TypedpyModel.Pinned.SharedWrites
 namespace Typedpy.C20
 open Typedpy.Sched
@@ -183,6 +184,29 @@ theorem C20_partial (sh : Shared) (calls : List Call) (h : conflictFreeB (calls.
     Linearizable sh (calls.map Call.prog) :=
   conflict_free_linearizable sh _ (conflictFreeB_sound h)
 
+/-- no Field object (cell) is used by two of the calls: what the alias table `Generated.fieldAliases = []` establishes
+    for calls on different declarations -/
+def OwnCells (calls : List Call) : Prop :=
+  ∀ (i j : Nat) (ci cj : Call), i ≠ j → calls[i]? = some ci → calls[j]? = some cj →
+    ∀ c, ¬ (ci.usesCell c = true ∧ cj.usesCell c = true)
+
+/-- Calls on declarations that own their Field objects (different fields / classes, no aliasing) are linearizable: for
+    EVERY schedule and any number of threads each thread returns / raises exactly what it does alone. -/
+theorem distinct_declarations_linearizable (sh : Shared) (calls : List Call) (h : OwnCells calls) :
+    Linearizable sh (calls.map Call.prog) := by
+  apply conflict_free_linearizable
+  intro i j p q hij hp hq c hw hr
+  simp only [List.getElem?_map] at hp hq
+  cases hci : calls[i]? with
+  | none => simp [hci] at hp
+  | some ci =>
+    cases hcj : calls[j]? with
+    | none => simp [hcj] at hq
+    | some cj =>
+      simp only [hci, hcj, Option.map_some, Option.some.injEq] at hp hq
+      subst hp; subst hq
+      exact h i j ci cj hij hci hcj c ⟨(Call.prog_cells ci).2 c hr, (Call.prog_cells cj).1 c hw⟩
+
 /-- Clause 1 of C20 holds in the model for EVERY schedule and every set of programs, racy or not: the result of a thread
     only contains values of that thread's own input (the temp structures are thread-private; what the race corrupts is
     WHICH of the thread's own elements is read back, or whether one is found at all). -/
@@ -307,6 +331,19 @@ def knownFindingKeys : List String := [
 /-- every shared write in the CURRENT working tree is either harmless (every thread writes an equivalent value) or a
     listed finding.  A new shared scratch write breaks this obligation. -/
 theorem tables_ok : ∀ r ∈ Generated.sharedWrites, r.safe = true ∨ r.key ∈ knownFindingKeys := by decide
+
+/-- Field objects the library is KNOWN to share between different declarations (none) -/
+def knownAliasKeys : List String := []
+
+/-- The hypothesis of `distinct_declarations_linearizable` for calls on different fields / classes, checked on the
+    CURRENT working tree: over the whole declaration vocabulary probed by extract/field_aliases.py (every spelling written
+    out freshly for two fields of one class and a field of a second class) no Field object is reachable from two
+    declarations.  A change that makes declarations share an item / option / key / value Field object (e.g. one
+    module-level NoneField for every Optional) breaks this obligation. -/
+theorem aliases_ok : ∀ r ∈ Generated.fieldAliases, r.key ∈ knownAliasKeys := by decide
+
+/-- the probe really declared the vocabulary and walked Field objects -/
+theorem aliases_nonvacuous : Generated.probedSpellings ≥ 30 ∧ Generated.probedObjects ≥ 300 := by decide
 
 /-- the same obligation on the committed snapshot of the table (keeps `Pinned/` compiled and reviewable) -/
 theorem pinned_tables_ok : ∀ r ∈ Pinned.sharedWrites, r.safe = true ∨ r.key ∈ knownFindingKeys := by decide
